@@ -37,6 +37,12 @@ def re_match_with_span(attr, value):
     if attr.pattern is None:
         return True
 
+    # the WHOLE value must match: with alternation ('a|ab') the first
+    # alternative that matches a prefix is not the answer
+    fullmatch = getattr(attr._pattern_re, 'fullmatch', None)
+    if fullmatch is not None:
+        return fullmatch(value) is not None
+
     m = attr._pattern_re.match(value)
     # if m:
     #     print(m, m.span(), len(value))
